@@ -325,6 +325,6 @@ SUBS = [
 
 MANIFEST = {
     "technique": "model-based property testing: Hypothesis draws histories of operation executions over up to three models on long-lived operation objects; oracle = snapshot equality (no mutation), agreement with a fresh object on an independently rebuilt twin, and a reference model of random-attribute generation",
-    "level_text": "Generated histories (2-10 steps, 11 operations, 3 models): after every step the model snapshot, the result against a fresh object on a rebuilt copy, and for attribute generation the exact set of changed features, attribute multiplicity, parent link, domain membership and integer-ness are checked. Sampling only.",
+    "level_text": "Generated histories (2-10 steps, 11 operations, 3 models): after every step the model snapshot, the result against a fresh object on a rebuilt copy, and for attribute generation the exact set of changed features, attribute multiplicity, parent link, domain membership and integer-ness are checked. Sampling only. Also: one Domain object per distinct domain of a history, narrow many-decimal and mixed int/float range bounds. A sample of every sub-check additionally runs in a `python -OO` child with the root logger at DEBUG.",
     "level_note": "Trusted: vf/build.py snapshot/rebuild, the domain-membership predicate in vf/props/c19.py. Distribution of random values is not decided.",
 }
